@@ -1047,6 +1047,69 @@ def compare_session(prop: str, spec: dict, init_line: str, ops, outs, states, mo
     return fails
 
 
+
+# ---------------------------------------------------------------------------------------------
+# small-scope exhaustion (thorough tier, model validation): every forest with <= 4 nodes over
+# 3 frames x every user action x every argument tuple, one operation per session
+# ---------------------------------------------------------------------------------------------
+def all_forests(maxn: int = 4, frames: int = 3):
+    import itertools
+    for k in range(0, maxn + 1):
+        for times in itertools.product(range(frames), repeat=k):
+            # parent choice per node: -1 or an earlier node
+            choices = []
+            for i in range(k):
+                choices.append([-1] + [j for j in range(k) if times[j] < times[i]])
+            for par in itertools.product(*choices):
+                out = [0] * k
+                ok = True
+                for i, p_ in enumerate(par):
+                    if p_ >= 0:
+                        out[p_] += 1
+                        if out[p_] > 2:
+                            ok = False
+                            break
+                if not ok:
+                    continue
+                nodes = [{"id": i + 1, "time": times[i], "pos": i + 1} for i in range(k)]
+                edges = [{"u": p_ + 1, "v": i + 1} for i, p_ in enumerate(par) if p_ >= 0]
+                yield nodes, edges
+
+
+def all_ops(nodes: list[dict], frames: int = 3) -> list[dict]:
+    ids = [n["id"] for n in nodes]
+    tids = sorted({n["tid"] for n in nodes})
+    ops: list[dict] = []
+    for u in ids:
+        for v in ids:
+            if u != v:
+                for f in (0, 1):
+                    ops.append({"op": "addedge", "u": u, "v": v, "force": f})
+                ops.append({"op": "deledge", "u": u, "v": v})
+            if u < v:
+                ops.append({"op": "swap", "a": u, "b": v})
+    for n in ids:
+        ops.append({"op": "delnode", "n": n})
+    fresh = (max(tids) + 1) if tids else 1
+    for t in range(frames):
+        for tid in tids + [fresh]:
+            for f in (0, 1):
+                ops.append({"op": "addnode", "id": 9, "time": t, "tid": tid, "force": f, "pos": 9})
+    ops.append({"op": "addnode", "id": 9, "time": 1, "tid": fresh, "force": 0, "pos": None})
+    return ops
+
+
+def exhaustive_cases() -> list[dict]:
+    rng = random.Random(12345)
+    cases = []
+    for nodes, edges in all_forests():
+        G.assign_ids(rng, nodes, edges)
+        spec = {"cfg": "pos", "ndim": 3, "with_ids": True, "scale": None, "nodes": nodes, "edges": edges}
+        for op in all_ops(nodes):
+            cases.append({"spec": spec, "ops": [op]})
+    return cases
+
+
 # ---------------------------------------------------------------------------------------------
 # shard worker and entry points
 # ---------------------------------------------------------------------------------------------
@@ -1126,7 +1189,7 @@ def worker(args) -> Result:
 
 BUDGET = {  # (sessions, ops per session) per tier
     "quick": {"default": (2400, 12), "C01": (1600, 10), "C02": (2000, 14), "C07": (1600, 10), "C08": (1200, 10), "C09": (1600, 10), "C10": (1600, 12)},
-    "thorough": {"default": (30000, 14), "C01": (20000, 12), "C02": (24000, 16), "C07": (20000, 12), "C08": (12000, 12), "C09": (20000, 12), "C10": (20000, 14)},
+    "thorough": {"default": (90000, 14), "C01": (50000, 12), "C02": (60000, 16), "C07": (50000, 12), "C08": (30000, 12), "C09": (50000, 12), "C10": (50000, 14)},
 }
 
 RULES = {
@@ -1169,7 +1232,18 @@ def run(prop: str, tier: str, seed: int, intensify: bool = False) -> Result:
         for i in range(0, len(seqs), chunk):
             jobs.append((prop, seeds[0], 0, nops,
                          [{"spec": EXH_SPEC, "ops": [{"sym": c} for c in q]} for q in seqs[i:i + chunk]]))
+    exh = 0
+    if tier == "thorough" and prop in ("C01", "C03", "C04", "C05", "C06", "C11", "C20") and not intensify:
+        cases = exhaustive_cases()
+        exh = len(cases)
+        random.Random(seed).shuffle(cases)
+        chunk = (len(cases) + shards - 1) // shards
+        for i in range(0, len(cases), chunk):
+            jobs.append((prop, seeds[0], 0, nops, cases[i:i + chunk]))
     res = Result(rule=RULES["default"])
+    if exh:
+        res.rule += (f" PLUS small-scope exhaustion: every forest with <= 4 nodes over 3 frames x every user action x "
+                     f"every argument tuple ({exh} single-operation sessions).")
     if prop == "C02":
         res.rule += (f" PLUS exhaustively all {len(seqs)} sequences over {{edit_a, edit_b, undo, redo}} up to length "
                      f"{maxlen} from a fixed 5-node forest (edit_a/edit_b are composite forced edits that nest user actions).")
